@@ -1,13 +1,25 @@
 """C09 implementation runner: one cell of the product decorator x binding x argument pattern x
-body kind per case.  For every cell the callable is built afresh (exec for the bodies, closures
+body kind (shape x return style) x calling context per case.  For every cell the callable is built afresh (exec for the bodies, closures
 and type() for the rest) once per calling convention, so that caches / deduplication never
 suppress a body run, and each convention is driven through asynq's public API only.
 
 Every body records (body id, receiver identity, a, b, k); the runner returns, per convention,
-(status, [records], outcome) and the answers of the five classification helpers."""
+(what became of the calling task, (status, [records], outcome)) and the answers of the five
+classification helpers.
+
+Calling context: every convention is executed at top level (CTop), inside the generator body of a
+running task (CGen), inside the plain body of a running task (CPlain), or inside a plain-bodied task
+that a generator task called synchronously (CNested).  The surrounding task returns (MARK, value);
+if it comes back with anything else it was finished with somebody else's value.
+
+Return style: the body ends in `return v` or in `result(v); return`.  The ...Own shapes put into v
+whether get_active_task() is a task made for this very function (its .fn has the body's code)."""
+import sys
+
 import _common
 import asynq
-from asynq import asynq as asynq_deco, async_proxy, async_call, ConstFuture
+from asynq import asynq as asynq_deco, async_proxy, async_call, ConstFuture, result, get_active_task
+from asynq.async_task import AsyncTaskResult
 from asynq.futures import FutureBase
 from asynq.batching import DebugBatchItem
 from asynq.decorators import (make_async_decorator, is_async_fn, is_pure_async_fn, has_async_fn,
@@ -35,15 +47,27 @@ def body({recv}a, b=20, *, k=30):
 TAIL = '''
     if a == 99:
         raise VErr(900 + {tagnum})
-    return ({tagnum}, a, b, k, x)
+    {ret}({tagnum}, a, b, k, x){after}
 '''
+
+
+def own(base):
+    """base if the active task was made for the calling function, base+1 for another task, base+2 for none."""
+    t = get_active_task()
+    if t is None:
+        return base + 2
+    return base if getattr(t.fn, "__code__", None) is sys._getframe(1).f_code else base + 1
+
 
 YIELDS = {
     "BPlain": "    x = 0\n",
     "BGenConst": "    x = yield ConstFuture(5)\n",
     "BGenTask": "    x = yield helper.asynq(6)\n",
     "BBatch": "    x = yield DebugBatchItem('c09', 7)\n",
+    "BPlainOwn": "    x = own(8)\n",
+    "BGenOwn": "    yield ConstFuture(5)\n    x = own(11)\n",
 }
+RETS = {"RetReturn": ("return ", ""), "RetResult": ("result(", ")\n    return")}
 
 INNER = '''
 @asynq_deco()
@@ -51,21 +75,23 @@ def inner(a, b, k):
 {yields}
     if a == 99:
         raise VErr(901)
-    return (1, a, b, k, x)
+    {ret}(1, a, b, k, x){after}
 '''
 
 PROXY_STMTS = "    return inner.asynq(a, b, k)\n"
 
 
 def make_body(tag, tagnum, style, bk, log, proxy):
+    shape, rs = bk
+    ret, after = RETS[rs]
     recv, recvexpr = {"func": ("", "None"), "self": ("self, ", "self"), "cls": ("cls, ", "cls")}[style]
     ns = dict(__log=log, VErr=VErr, ConstFuture=ConstFuture, helper=helper, DebugBatchItem=DebugBatchItem,
-              asynq_deco=asynq_deco)
+              asynq_deco=asynq_deco, own=own, result=result)
     if proxy:
-        exec(INNER.format(yields=YIELDS[bk]), ns)
+        exec(INNER.format(yields=YIELDS[shape], ret=ret, after=after), ns)
         stmts = PROXY_STMTS
     else:
-        stmts = YIELDS[bk] + TAIL.format(tagnum=tagnum)
+        stmts = YIELDS[shape] + TAIL.format(tagnum=tagnum, ret=ret, after=after)
     exec(BODY.format(recv=recv, recvexpr=recvexpr, tag=tag, stmts=stmts), ns)
     return ns["body"]
 
@@ -100,7 +126,7 @@ def build(deco, binding, bk, explicit=True):
     elif deco == "DProxyPure":
         attr = async_proxy(pure=True)(raw)
     elif deco == "DPair":
-        sbody = make_body("SyncBody", 2, style, "BPlain", log, False)
+        sbody = make_body("SyncBody", 2, style, ("BPlain", "RetReturn"), log, False)
         sraw = mtype(sbody) if mtype else sbody
         attr = asynq_deco(sync_fn=sraw)(raw)
     elif deco == "DWrap":
@@ -155,6 +181,8 @@ def exn_id(e):
         return -1
     if isinstance(e, AttributeError):
         return -20
+    if isinstance(e, AsyncTaskResult):
+        return -30
     return {"Unexpected": [{"s": type(e).__name__ + ":" + str(e)[:80]}]}
 
 
@@ -191,18 +219,60 @@ def records(cell):
     return out
 
 
-def outcome_of(cell, status, thunk):
+MARK = ("C09-calling-task",)
+MID = ("C09-nested-task",)
+
+
+def in_context(ctx, thunk):
+    """Executes thunk() in the calling context; returns (what became of the calling task, value)."""
+    if ctx == "CTop":
+        return "CallerNone", thunk()
+    if ctx == "CGen":
+        @asynq_deco()
+        def outer():
+            yield ConstFuture(0)
+            r = thunk()
+            return (MARK, r)
+    elif ctx == "CPlain":
+        @asynq_deco()
+        def outer():
+            return (MARK, thunk())
+    elif ctx == "CNested":
+        @asynq_deco()
+        def mid():
+            return (MID, thunk())
+
+        @asynq_deco()
+        def outer():
+            yield ConstFuture(0)
+            r = mid()
+            return (MARK, r)
+    else:
+        raise ValueError(ctx)
+    v = outer()
+    if not (isinstance(v, tuple) and len(v) == 2 and v[0] is MARK):
+        return "CallerHijacked", v
+    v = v[1]
+    if ctx == "CNested":
+        if not (isinstance(v, tuple) and len(v) == 2 and v[0] is MID):
+            return "CallerHijacked", v
+        v = v[1]
+    return "CallerOwn", v
+
+
+def outcome_of(cell, status, ctx, thunk):
     try:
-        return {"ROk": [valtree(cell, thunk())]}
+        caller, v = in_context(ctx, thunk)
+        return caller, {"ROk": [valtree(cell, v)]}
     except BaseException as e:
         if isinstance(e, _common.Hang):
             raise
         if status[0] not in ("SNoAsynqAttr", "SNoAsyncFn"):
             status[0] = "SRaised"
-        return {"RErr": [exn_id(e)]}
+        return ("CallerNone" if ctx == "CTop" else "CallerOwn"), {"RErr": [exn_id(e)]}
 
 
-def run_convention(conv, deco, binding, explicit, pos, kw, bk):
+def run_convention(conv, deco, binding, explicit, pos, kw, bk, ctx):
     cell = build(deco, binding, bk, explicit)
     t = cell.target
     args = cell.prefix + tuple(pos)
@@ -217,7 +287,7 @@ def run_convention(conv, deco, binding, explicit, pos, kw, bk):
         return r
 
     if conv == "Sync":
-        o = outcome_of(cell, status, lambda: direct(True))
+        o = outcome_of(cell, status, ctx, lambda: direct(True))
     elif conv == "AsynqValue":
         def th():
             try:
@@ -226,7 +296,7 @@ def run_convention(conv, deco, binding, explicit, pos, kw, bk):
                 status[0] = "SNoAsynqAttr"
                 raise
             return a(*args, **kw).value()
-        o = outcome_of(cell, status, th)
+        o = outcome_of(cell, status, ctx, th)
     elif conv == "YieldAsynq":
         @asynq_deco()
         def drv():
@@ -237,13 +307,13 @@ def run_convention(conv, deco, binding, explicit, pos, kw, bk):
                 raise
             v = yield a(*args, **kw)
             return v
-        o = outcome_of(cell, status, drv)
+        o = outcome_of(cell, status, ctx, drv)
     elif conv == "AsyncCall":
         @asynq_deco()
         def drv2():
             v = yield async_call.asynq(t, *args, **kw)
             return v
-        o = outcome_of(cell, status, drv2)
+        o = outcome_of(cell, status, ctx, drv2)
     elif conv == "YieldDirect":
         def th2():
             r = t(*args, **kw)
@@ -256,7 +326,7 @@ def run_convention(conv, deco, binding, explicit, pos, kw, bk):
                 v = yield r
                 return v
             return drv3()
-        o = outcome_of(cell, status, th2)
+        o = outcome_of(cell, status, ctx, th2)
     elif conv == "ViaGetAsync":
         def th3():
             g = get_async_fn(t)
@@ -268,7 +338,7 @@ def run_convention(conv, deco, binding, explicit, pos, kw, bk):
                 status[0] = "SNotAFuture"
                 return r
             return r.value()
-        o = outcome_of(cell, status, th3)
+        o = outcome_of(cell, status, ctx, th3)
     elif conv == "ViaGetAsyncOrSync":
         def th4():
             r = get_async_or_sync_fn(t)(*args, **kw)
@@ -276,10 +346,10 @@ def run_convention(conv, deco, binding, explicit, pos, kw, bk):
                 return r.value()
             status[0] = "SRetValue"
             return r
-        o = outcome_of(cell, status, th4)
+        o = outcome_of(cell, status, ctx, th4)
     else:
         raise ValueError(conv)
-    return {"": [status[0], records(cell), o]}
+    return {"": [o[0], {"": [status[0], records(cell), o[1]]}]}
 
 
 CONVS = ["Sync", "AsynqValue", "YieldAsynq", "AsyncCall", "YieldDirect", "ViaGetAsync", "ViaGetAsyncOrSync"]
@@ -323,7 +393,9 @@ def classify(deco, binding, bk):
         extra["probe_direct"] = "future" if isinstance(r, FutureBase) else "value"
         if isinstance(r, FutureBase):
             r.value()
-    except Exception as e:
+    except BaseException as e:          # AsyncTaskResult is a GeneratorExit
+        if isinstance(e, _common.Hang):
+            raise
         extra["probe_direct"] = "raised:" + type(e).__name__
     probe = build(deco, binding, bk)
     try:
@@ -333,19 +405,22 @@ def classify(deco, binding, bk):
             r.value()
     except AttributeError:
         extra["probe_asynq"] = "absent"
-    except Exception as e:
+    except BaseException as e:
+        if isinstance(e, _common.Hang):
+            raise
         extra["probe_asynq"] = "raised:" + type(e).__name__
     return cls, extra
 
 
 def run_case(c):
-    deco, binding, explicit, pos, kwl, bk = c["args"]
+    deco, binding, explicit, pos, kwl, bk, ctx = c["args"]
+    bk = tuple(bk["BK"])
     explicit = explicit == "true"
     kw = {}
     for item in kwl:
         name, v = item[""]
         kw[{"Ka": "a", "Kb": "b", "Kk": "k", "Kz": "z"}[name]] = v
-    convs = [run_convention(cv, deco, binding, explicit, pos, kw, bk) for cv in CONVS]
+    convs = [run_convention(cv, deco, binding, explicit, pos, kw, bk, ctx) for cv in CONVS]
     cl, extra = classify(deco, binding, bk)
     return {"out": {"": [convs, cl]}, "extra": extra}
 
